@@ -395,6 +395,8 @@ impl Cfg {
 /// A configuration with its selectors parsed once (selector parsing dominates otherwise).
 pub struct Prepared {
     pub cfg: Cfg,
+    /// shared copy of `cfg` (for the hang watchdog's case record)
+    pub cfg_shared: Arc<Cfg>,
     pub selectors: Arc<Vec<Option<Selector>>>,
     pub encoding: &'static Encoding,
 }
@@ -417,6 +419,7 @@ impl Prepared {
         let encoding = Encoding::for_label(cfg.encoding.as_bytes())
             .ok_or_else(|| format!("unknown encoding {}", cfg.encoding))?;
         Ok(Prepared {
+            cfg_shared: Arc::new(cfg.clone()),
             cfg,
             selectors: Arc::new(selectors),
             encoding,
@@ -430,6 +433,7 @@ impl Prepared {
         f(&mut cfg);
         debug_assert!(cfg.handlers == self.cfg.handlers && cfg.encoding == self.cfg.encoding);
         Prepared {
+            cfg_shared: if TRACK_CASES.load(Ordering::Relaxed) { Arc::new(cfg.clone()) } else { self.cfg_shared.clone() },
             cfg,
             selectors: self.selectors.clone(),
             encoding: self.encoding,
@@ -894,6 +898,55 @@ fn to_res(r: Result<(), RewritingError>) -> CallRes {
     }
 }
 
+// ---------------------------------------------------------------------------------------------
+// Hang watchdog: every execution marks its thread busy; a watchdog thread (main.rs) reports an
+// execution that does not return ("every public call terminates", C15).
+// ---------------------------------------------------------------------------------------------
+
+pub struct Heart {
+    /// milliseconds since process start (| 1) at which the current execution began; 0 = idle
+    pub busy_since_ms: std::sync::atomic::AtomicU64,
+    /// the case being executed (only recorded when TRACK_CASES is set)
+    pub case: Mutex<Option<(Arc<Cfg>, Vec<Vec<u8>>)>>,
+}
+
+pub static HEARTS: Mutex<Vec<Arc<Heart>>> = Mutex::new(Vec::new());
+pub static TRACK_CASES: std::sync::atomic::AtomicBool = std::sync::atomic::AtomicBool::new(false);
+static START: std::sync::OnceLock<std::time::Instant> = std::sync::OnceLock::new();
+
+pub fn now_ms() -> u64 {
+    START.get_or_init(std::time::Instant::now).elapsed().as_millis() as u64
+}
+
+thread_local! {
+    static HEART: Arc<Heart> = {
+        let h = Arc::new(Heart { busy_since_ms: std::sync::atomic::AtomicU64::new(0), case: Mutex::new(None) });
+        HEARTS.lock().unwrap().push(h.clone());
+        h
+    };
+}
+
+/// Marks the current thread busy until the guard is dropped.
+pub struct Busy;
+
+pub fn busy(case: Option<(&Prepared, &[&[u8]])>) -> Busy {
+    HEART.with(|h| {
+        if TRACK_CASES.load(Ordering::Relaxed) {
+            if let Some((p, chunks)) = case {
+                *h.case.lock().unwrap() = Some((p.cfg_shared.clone(), chunks.iter().map(|c| c.to_vec()).collect()));
+            }
+        }
+        h.busy_since_ms.store(now_ms() | 1, Ordering::Relaxed);
+    });
+    Busy
+}
+
+impl Drop for Busy {
+    fn drop(&mut self) {
+        HEART.with(|h| h.busy_since_ms.store(0, Ordering::Relaxed));
+    }
+}
+
 /// Run `chunks` as successive writes, then `end()` if `do_end`. Stops at the first failing
 /// call (the rewriter is poisoned). Panics are caught and recorded.
 pub fn run(p: &Prepared, chunks: &[&[u8]], do_end: bool) -> RunResult {
@@ -903,6 +956,7 @@ pub fn run(p: &Prepared, chunks: &[&[u8]], do_end: bool) -> RunResult {
 /// `after_error_probe`: after a failing call, additionally issue one more `write(b"x")` and
 /// record its result (must be a panic, must not touch the sink) — used by C12.
 pub fn run_opts(p: &Prepared, chunks: &[&[u8]], do_end: bool, after_error_probe: bool) -> RunResult {
+    let _busy = busy(Some((p, chunks)));
     let shared: SharedRef = Arc::new(Mutex::new(Shared::default()));
     let mut rr = RunResult::default();
     let sh = shared.clone();
@@ -993,6 +1047,7 @@ pub fn split<'a>(input: &'a [u8], cuts: &[usize]) -> Vec<&'a [u8]> {
 
 /// `rewrite_str` through the same configuration (UTF-8 inputs only).
 pub fn run_rewrite_str(p: &Prepared, input: &str) -> (Result<String, (u8, String)>, Vec<Ev>) {
+    let _busy = busy(Some((p, &[input.as_bytes()])));
     let shared: SharedRef = Arc::new(Mutex::new(Shared::default()));
     let settings = build_local(p, &shared);
     let r = catch_unwind(AssertUnwindSafe(|| lol_html::rewrite_str(input, settings)));
